@@ -57,7 +57,7 @@ type c17Scenario struct {
 
 var printable = func() string {
 	var b []byte
-	for c := byte(33); c <= 126; c++ {
+	for c := byte(32); c <= 126; c++ { // the blank is printable too
 		if c != '>' {
 			b = append(b, c)
 		}
